@@ -182,7 +182,7 @@ class SpyExecutor(Executor):
             self._items.append((f, fn, args, kwargs))
             self.submitted.append(f)
             env.rec("spy-submit", label, getattr(fn, "tag", None))
-            if self._idle == 0 and len(self._threads) < self.n:
+            if len(self._items) > self._idle and len(self._threads) < self.n:
                 t = core.SimThread(name="%s-worker-%d" % (self.name, len(self._threads)),
                                    target=self._worker)
                 t.daemon = True
@@ -244,9 +244,11 @@ class SpyExecutor(Executor):
             except Exception as e:
                 env.rec("spy-done", f.label, "exc")
                 f.set_exception(e)
+                env.rec("spy-fin", f.label)
             else:
                 env.rec("spy-done", f.label, "ok")
                 f.set_result(r)
+                env.rec("spy-fin", f.label)
             del item, f, fn, args, kwargs
 
 
